@@ -281,44 +281,47 @@ theorem denoteAny_iff : ∀ (qs : List Query) (f : Feature), denoteAny qs f = tr
 /-! ## the main induction -/
 
 section main
-variable (fs : List Feature) (ix : Index)
+variable (fs : List Feature) (ix : Index) (K : Nat → Prop)
 
 /-- what `q` has to select -/
 def Sel (q : Query) (x : Nat) : Prop := ∃ f ∈ fs, f.id = x ∧ searchable f = true ∧ denote q f = true
 
 /-- lists: `lowerList` succeeds when every element does, and memberships transfer -/
 theorem lowerList_spec : ∀ (qs : List Query),
-    (∀ q ∈ qs, ∃ sq, lower q = some sq ∧ sq.WF ∧ ∀ x, x ∈ sq.denote ix ↔ Sel fs q x) →
-    ∃ sqs, lowerList qs = some sqs ∧ SQuery.WFList sqs ∧ (sqs = [] ↔ qs = []) ∧
+    (∀ q ∈ qs, ∃ sq, lower q = some sq ∧ sq.WF ∧ sq.KeysIn K ∧ ∀ x, x ∈ sq.denote ix ↔ Sel fs q x) →
+    ∃ sqs, lowerList qs = some sqs ∧ SQuery.WFList sqs ∧ SQuery.KeysInList K sqs ∧ (sqs = [] ↔ qs = []) ∧
       (∀ x, (∃ l ∈ SQuery.denoteList ix sqs, x ∈ l) ↔ ∃ q ∈ qs, Sel fs q x) ∧
       (∀ x, (∀ l ∈ SQuery.denoteList ix sqs, x ∈ l) ↔ ∀ q ∈ qs, Sel fs q x)
-  | [], _ => ⟨[], by simp [lowerList], by simp [SQuery.WFList], by simp, by simp [SQuery.denoteList],
-      by simp [SQuery.denoteList]⟩
+  | [], _ => ⟨[], by simp [lowerList], by simp [SQuery.WFList], by simp [SQuery.KeysInList], by simp,
+      by simp [SQuery.denoteList], by simp [SQuery.denoteList]⟩
   | q :: qs, h => by
-    obtain ⟨sq, h1, h2, h3⟩ := h q (by simp)
-    obtain ⟨sqs, e1, e2, _, e4, e5⟩ := lowerList_spec qs (fun q' hq' => h q' (List.mem_cons_of_mem _ hq'))
-    refine ⟨sq :: sqs, by simp [lowerList, h1, e1], by simp [SQuery.WFList, h2, e2], by simp, ?_, ?_⟩
+    obtain ⟨sq, h1, h2, hk2, h3⟩ := h q (by simp)
+    obtain ⟨sqs, e1, e2, ek2, _, e4, e5⟩ := lowerList_spec qs (fun q' hq' => h q' (List.mem_cons_of_mem _ hq'))
+    refine ⟨sq :: sqs, by simp [lowerList, h1, e1], by simp [SQuery.WFList, h2, e2],
+      by simp [SQuery.KeysInList, hk2, ek2], by simp, ?_, ?_⟩
     · intro x
       simp only [SQuery.denoteList, List.mem_cons, exists_eq_or_imp, h3 x, e4 x]
     · intro x
       simp only [SQuery.denoteList, List.mem_cons, forall_eq_or_imp, h3 x, e5 x]
 
-theorem lower_spec (hinv : IndexInv fs ix) (hfs : ∀ f ∈ fs, FeatureOK f) (hid : (fs.map Feature.id).Nodup) :
+theorem lower_spec (hinv : IndexInv fs ix) (hfs : ∀ f ∈ fs, FeatureOK f) (hid : (fs.map Feature.id).Nodup)
+    (hK : ∀ t, (t < 4 ∨ t = 5) → K (typeBegin t)) :
     (q : Query) → QueryOK q →
-      ∃ sq, lower q = some sq ∧ sq.WF ∧ ∀ x, x ∈ sq.denote ix ↔ Sel fs q x
+      ∃ sq, lower q = some sq ∧ sq.WF ∧ sq.KeysIn K ∧ ∀ x, x ∈ sq.denote ix ↔ Sel fs q x
   | .all, _ => by
-    refine ⟨.all allToken, rfl, by simp [SQuery.WF], fun x => ?_⟩
+    refine ⟨.all allToken, rfl, by simp [SQuery.WF], by simp [SQuery.KeysIn], fun x => ?_⟩
     simp only [SQuery.denote, hinv.2, Sel, denote]
     constructor
     · rintro ⟨f, hf, hx, ht⟩
       exact ⟨f, hf, hx, ((mem_tokensFor f _).1 ht).1, trivial⟩
     · rintro ⟨f, hf, hx, hs, _⟩
       exact ⟨f, hf, hx, (mem_tokensFor f _).2 ⟨hs, Or.inl rfl⟩⟩
-  | .empty, _ => ⟨.empty, rfl, by simp [SQuery.WF], fun x => by simp [SQuery.denote, Sel, denote]⟩
+  | .empty, _ => ⟨.empty, rfl, by simp [SQuery.WF], by simp [SQuery.KeysIn],
+      fun x => by simp [SQuery.denote, Sel, denote]⟩
   | .tagged k v, hq => by
     simp only [QueryOK] at hq
     obtain ⟨⟨k', rfl⟩, hk⟩ := hq
-    refine ⟨.all (k' ++ '=' :: v), rfl, by simp [SQuery.WF], fun x => ?_⟩
+    refine ⟨.all (k' ++ '=' :: v), rfl, by simp [SQuery.WF], by simp [SQuery.KeysIn], fun x => ?_⟩
     simp only [SQuery.denote, hinv.2, Sel, denote]
     constructor
     · rintro ⟨f, hf, hx, ht⟩
@@ -330,7 +333,7 @@ theorem lower_spec (hinv : IndexInv fs ix) (hfs : ∀ f ∈ fs, FeatureOK f) (hi
     simp only [QueryOK] at hq
     obtain ⟨hsig, hk⟩ := hq
     rcases hsig with ⟨k', rfl⟩ | ⟨k', rfl⟩
-    · refine ⟨.tokenPrefix (k' ++ ['=']), rfl, by simp [SQuery.WF], fun x => ?_⟩
+    · refine ⟨.tokenPrefix (k' ++ ['=']), rfl, by simp [SQuery.WF], by simp [SQuery.KeysIn], fun x => ?_⟩
       simp only [SQuery.denote, mem_sortDedup, List.mem_flatten, List.mem_map, List.mem_filter, Sel, denote]
       constructor
       · rintro ⟨l, ⟨e, ⟨he, hp⟩, rfl⟩, hx⟩
@@ -343,7 +346,7 @@ theorem lower_spec (hinv : IndexInv fs ix) (hfs : ∀ f ∈ fs, FeatureOK f) (hi
         have hget : x ∈ ix.get t := (hinv.2 t x).2 ⟨f, hf, hfx, ht⟩
         obtain ⟨e, he, rfl, hx⟩ := (mem_get_iff ix hinv.1 t x).1 hget
         exact ⟨e.2, ⟨e, ⟨he, hp⟩, rfl⟩, hx⟩
-    · refine ⟨.all k', rfl, by simp [SQuery.WF], fun x => ?_⟩
+    · refine ⟨.all k', rfl, by simp [SQuery.WF], by simp [SQuery.KeysIn], fun x => ?_⟩
       simp only [SQuery.denote, hinv.2, Sel, denote]
       constructor
       · rintro ⟨f, hf, hx, ht⟩
@@ -354,13 +357,13 @@ theorem lower_spec (hinv : IndexInv fs ix) (hfs : ∀ f ∈ fs, FeatureOK f) (hi
   | .typed t q, hq => by
     simp only [QueryOK] at hq
     obtain ⟨ht, hq⟩ := hq
-    obtain ⟨sq, h1, h2, h3⟩ := lower_spec hinv hfs hid q hq
+    obtain ⟨sq, h1, h2, hk2, h3⟩ := lower_spec hinv hfs hid hK q hq
     have htb : (decide (t < 4) || t == 5) = true := by
       rcases ht with h | h
       · simp [h]
       · simp [h]
     refine ⟨.keyRange (typeBegin t) (typeBegin (t + 1)) sq, by simp [lower, htb, h1], by simp [SQuery.WF, h2],
-      fun x => ?_⟩
+      by simp only [SQuery.KeysIn]; exact ⟨hK t ht, hk2⟩, fun x => ?_⟩
     simp only [SQuery.denote, mem_rangeList, h3 x, Sel, denote, Bool.and_eq_true, beq_iff_eq]
     constructor
     · rintro ⟨⟨f, hf, hx, hs, hd⟩, hb, he⟩
@@ -375,11 +378,11 @@ theorem lower_spec (hinv : IndexInv fs ix) (hfs : ∀ f ∈ fs, FeatureOK f) (hi
   | .and qs, hq => by
     simp only [QueryOK] at hq
     rw [okList_iff] at hq
-    obtain ⟨sqs, e1, e2, e3, _, e5⟩ := lowerList_spec fs ix qs
-      (fun q hq' => lower_spec hinv hfs hid q (hq q hq'))
+    obtain ⟨sqs, e1, e2, ek, e3, _, e5⟩ := lowerList_spec fs ix K qs
+      (fun q hq' => lower_spec hinv hfs hid hK q (hq q hq'))
     cases qs with
     | nil =>
-      refine ⟨.all allToken, rfl, by simp [SQuery.WF], fun x => ?_⟩
+      refine ⟨.all allToken, rfl, by simp [SQuery.WF], by simp [SQuery.KeysIn], fun x => ?_⟩
       simp only [SQuery.denote, hinv.2, Sel, denote, denoteAll]
       constructor
       · rintro ⟨f, hf, hx, ht⟩
@@ -388,7 +391,7 @@ theorem lower_spec (hinv : IndexInv fs ix) (hfs : ∀ f ∈ fs, FeatureOK f) (hi
         exact ⟨f, hf, hx, (mem_tokensFor f _).2 ⟨hs, Or.inl rfl⟩⟩
     | cons q0 qs0 =>
       have hne : sqs ≠ [] := by intro h; have := e3.1 h; simp at this
-      refine ⟨.inter sqs, by simp [lower, e1], by simp [SQuery.WF, hne, e2], fun x => ?_⟩
+      refine ⟨.inter sqs, by simp [lower, e1], by simp [SQuery.WF, hne, e2], by simp [SQuery.KeysIn, ek], fun x => ?_⟩
       simp only [SQuery.denote]
       cases hs : SQuery.denoteList ix sqs with
       | nil =>
@@ -411,9 +414,9 @@ theorem lower_spec (hinv : IndexInv fs ix) (hfs : ∀ f ∈ fs, FeatureOK f) (hi
   | .or qs, hq => by
     simp only [QueryOK] at hq
     rw [okList_iff] at hq
-    obtain ⟨sqs, e1, e2, _, e4, _⟩ := lowerList_spec fs ix qs
-      (fun q hq' => lower_spec hinv hfs hid q (hq q hq'))
-    refine ⟨.union sqs, by simp [lower, e1], by simp [SQuery.WF, e2], fun x => ?_⟩
+    obtain ⟨sqs, e1, e2, ek, _, e4, _⟩ := lowerList_spec fs ix K qs
+      (fun q hq' => lower_spec hinv hfs hid hK q (hq q hq'))
+    refine ⟨.union sqs, by simp [lower, e1], by simp [SQuery.WF, e2], by simp [SQuery.KeysIn, ek], fun x => ?_⟩
     simp only [SQuery.denote, mem_sortDedup, List.mem_flatten, e4 x, Sel, denote, denoteAny_iff]
     constructor
     · rintro ⟨q, hq', f, hf, hx, hs, hd⟩
